@@ -112,3 +112,54 @@ func eventAttrs(evs []sdkEvent, typ string) []map[string]string { return nil }
 type sdkEvent struct{}
 
 var _ = sdk.ZeroInt
+
+// checkAwardQueue compares the stored award queue with what the downstream module asked for through
+// AwardCoinsTo during this call (the request log, not the stored value, is the reference): after EndBlock every entry is
+// its previous value plus the amounts requested in this call; after BeginBlock (pos mints first, the downstream module
+// runs after it) it is exactly what was requested in this call.
+func checkAwardQueue(e *sim.Env, c *sim.Call, prop string) {
+	if c.Panic != "" || c.Post.View == nil || c.Pre.View == nil || (c.Kind != "begin" && c.Kind != "end") {
+		return
+	}
+	want := map[string]*big.Int{}
+	if c.Kind == "end" {
+		for a, q := range c.Pre.View.Awards {
+			want[a] = new(big.Int).Set(q)
+		}
+	}
+	n := 0
+	for _, x := range c.Entry.Ext {
+		if x.Kind == "award" && x.Phase == c.Kind {
+			k := hexs(x.Addr)
+			if want[k] == nil {
+				want[k] = new(big.Int)
+			}
+			want[k].Add(want[k], bi(x.Amount))
+			n++
+		}
+	}
+	if n > 0 {
+		e.Count(lowerProp(prop) + ".award_requests_checked_against_queue")
+	}
+	keys := map[string]bool{}
+	for a := range want {
+		keys[a] = true
+	}
+	for a := range c.Post.View.Awards {
+		keys[a] = true
+	}
+	for a := range keys {
+		w, g := want[a], c.Post.View.Awards[a]
+		if w == nil {
+			w = new(big.Int)
+		}
+		if g == nil {
+			g = new(big.Int)
+		}
+		if w.Cmp(g) != 0 {
+			e.Violate(prop, "award-queue-ne-requested/"+c.Kind, fmt.Sprintf("%s@%d: award queue entry of %s holds %v, the amounts requested so far sum to %v", c.Kind, c.H, a, g, w), c)
+		}
+	}
+}
+
+func lowerProp(p string) string { return "c" + p[1:] }
